@@ -1,0 +1,13 @@
+//go:build verif
+
+package clock
+
+// VerifC02TimerCount returns the number of timers currently armed on the mock
+// clock (for the external verification harness, build tag "verif" only): the
+// harness uses it to wait until a goroutine woken by a timer has finished its
+// work and armed its next timer. It adds no behaviour.
+func (m *MockClock) VerifC02TimerCount() int {
+	m.mu.RLock()
+	defer m.mu.RUnlock()
+	return len(m.timers)
+}
